@@ -398,6 +398,46 @@ def _opt_term(a, m):
 
 
 XCHECK["opt"] = ("Arith.Options", _opt_term)
+
+
+def _xread(m):
+    """driver/h_lzmadec.ml answers -> Gallina term of type xread"""
+    w = m.split(" ")
+    try:
+        if w[0] == "END" and len(w) == 3:
+            return f"(XEnd {_zl(w[1])} {_z(w[2])})"
+        if w[0].startswith("ERR") and len(w) == 2:
+            return f"(XErrOut {_z(w[0][3:])} {_zl(w[1])})"
+        if w[0].startswith("CERR") and len(w) == 1:
+            return f"(XCErr {_z(w[0][4:])})"
+    except ValueError:
+        return None
+    return {"PANIC": "XRPanic"}.get(m)        # FUEL answers depend on the driver's own budget: not compared
+
+
+def _ints(s):
+    return "[]" if s == "." else "[" + ";".join(_z(x) for x in s.split(",")) + "]"
+
+
+def _pre(s):
+    return "None" if s == "none" else f"(Some {_zl(s)})"
+
+
+def _unc(s):
+    return "18446744073709551615" if s == "-1" else _z(s)
+
+
+def _rd(fn, new, szs_ix):
+    return lambda a, m: (lambda e: e and f"{fn} ({new(a)}) {_ints(a[szs_ix])} {e}")(_xread(m))
+
+
+_DEC = "Codec.Lzma1 Codec.Lzma2Dec Codec.XCheckDec"
+XCHECK["lzma2"] = (_DEC, _rd("x_lzma2", lambda a: f"lzma2_new {_zl(a[2])} {_z(a[0])} {_pre(a[1])}", 3))
+XCHECK["lzma1_hdr"] = (_DEC, _rd("x_lzma1", lambda a: f"lzma1_new_mem_limit {_zl(a[1])} {_z(a[0])} None", 2))
+XCHECK["lzma1_raw"] = (_DEC, _rd("x_lzma1", lambda a: f"lzma1_construct2 {_zl(a[6])} {_unc(a[0])} {_z(a[1])} {_z(a[2])} {_z(a[3])} {_z(a[4])} {_pre(a[5])}", 7))
+XCHECK["lzma1_props"] = (_DEC, _rd("x_lzma1", lambda a: f"lzma1_construct1 {_zl(a[4])} {_unc(a[0])} {_z(a[1])} {_z(a[2])} {_pre(a[3])}", 5))
+# reader cases are evaluated byte by byte inside Coq: only short sources
+XCHECK_MAXLEN_BY_CMD = dict(lzma2=700, lzma1_hdr=700, lzma1_raw=700, lzma1_props=700)
 XCHECK_SAMPLE = 48          # cases per area and stage
 XCHECK_MAXLEN = 6000        # characters of a case line (a hex byte becomes a Z literal)
 
@@ -409,7 +449,7 @@ def xcheck(cases, model, workdir):
     elig = []
     for k, line in cases.items():
         w = line.split(" ")
-        if w[0] in XCHECK and len(line) <= XCHECK_MAXLEN and k.lstrip("-").isdigit():
+        if w[0] in XCHECK and len(line) <= XCHECK_MAXLEN_BY_CMD.get(w[0], XCHECK_MAXLEN) and k.lstrip("-").isdigit():
             elig.append(k)
     if not elig:
         res["skipped"] = "no command of this area has an in-Coq twin"
